@@ -328,7 +328,8 @@ def main(run):
             # 2-D, magnetic: a magnetic SLD and a polarisation state, on oriented and un-oriented models alike (the
             # magnetic parameters are call parameters of every interface; in 1-D they are ignored by all of them)
             msld = [p.name for p in pt.call_parameters if p.type == "sld" and p.length == 1 and (p.name + "_M0") in [c.name for c in pt.call_parameters]]
-            if dim2 and msld and mult is None and rng.random() < 0.7:
+            # (pure-Python models refuse magnetism with NotImplementedError through every interface: not generated)
+            if dim2 and msld and mult is None and not callable(info.Iq) and rng.random() < 0.7:
                 m_ = rng.choice(msld)
                 pars[m_ + "_M0"] = rng.choice([-1, 1]) * rng.uniform(0.5, 4.0)
                 pars[m_ + "_mtheta"] = rng.uniform(10, 170); pars[m_ + "_mphi"] = rng.uniform(0, 180)
@@ -517,6 +518,13 @@ def main(run):
                 d.dx = None
                 d.mask = np.array([rng.random() < 0.25 for _ in range(npt)]) if rng.random() < 0.8 else None
                 d.qmin, d.qmax = float(x[rng.randint(0, 2)]), float(x[-rng.randint(1, 3)])
+                if rep == 0:
+                    # corpus (every model, every run): a NaN intensity inside [qmin, qmax] that the user's mask does NOT
+                    # flag, next to a masked finite point - both are left out
+                    y = np.array([rng.uniform(1, 2) for _ in range(npt)]); y[npt // 2] = float("nan")
+                    d = Data1D(x=x, y=y, dy=np.ones(npt)); d.dx = None
+                    d.mask = np.zeros(npt, dtype=bool); d.mask[1] = True
+                    d.qmin, d.qmax = float(x[0]), float(x[-1])
                 xs, ys, mask, dat = x, np.zeros(npt), d.mask, y
             # independent oracle: point by point
             want_idx = []
